@@ -60,6 +60,12 @@ func hasProp(props []string, p string) bool {
 func (eng *Engine) selectTargets(prop string) []target {
 	var out []target
 	for _, t := range eng.targets() {
+		if t.lm != nil {
+			if hasProp(t.lm.Props, prop) {
+				out = append(out, t)
+			}
+			continue
+		}
 		if contractMentions(t.ct, prop) {
 			out = append(out, t)
 		}
@@ -146,26 +152,54 @@ func runProperty(repo, verif, prop string, timeoutMs int, thorough bool) *checkR
 	// VC generation is not thread-safe w.r.t. the shared engine caches: generate sequentially, solve in parallel.
 	vcs := make([]*VC, len(ts))
 	for i, t := range ts {
-		cr.targets[funcDisplay(t.fn)] = t
+		cr.targets[t.display()] = t
 		g0 := time.Now()
-		fr := &FuncResult{Fn: funcDisplay(t.fn), Key: funcKey(t.fn), Props: t.ct.Props}
-		fr.NClauses = len(t.ct.Requires) + len(t.ct.Ensures)
-		for _, l := range t.ct.Loops {
-			fr.NClauses += len(l.Invariants)
-			if l.Decreases != nil {
-				fr.NClauses++
-			}
-		}
-		if p := t.fn.Pos(); p.IsValid() {
-			fr.File = shortFile(eng.fset.Position(p).Filename)
-		}
-		vc, err := eng.buildVC(t.fn, t.ct)
+		fr := eng.newFuncResult(t)
+		vc, err := eng.build(t)
 		fr.GenTime = time.Since(g0).Seconds()
 		if err != nil {
 			fr.Err = err.Error()
 		}
 		vcs[i] = vc
 		results[i] = fr
+	}
+	// lemmas used as axioms by these VCs are part of the property's proof: verify them here too
+	have := map[string]bool{}
+	for _, t := range ts {
+		if t.lm != nil {
+			have[t.lm.Name] = true
+		}
+	}
+	for changed := true; changed; {
+		changed = false
+		for i := 0; i < len(vcs); i++ {
+			if vcs[i] == nil {
+				continue
+			}
+			vcs[i].emitLemmaAxioms()
+			for name := range vcs[i].lemmaDone {
+				if have[name] {
+					continue
+				}
+				for _, lm := range eng.cs.Lemmas {
+					if lm.Name == name && !lm.Axiom {
+						have[name] = true
+						changed = true
+						t := target{lm: lm}
+						ts = append(ts, t)
+						cr.targets[t.display()] = t
+						fr := eng.newFuncResult(t)
+						fr.Props = append(append([]string{}, fr.Props...), prop)
+						vc, err := eng.build(t)
+						if err != nil {
+							fr.Err = err.Error()
+						}
+						vcs = append(vcs, vc)
+						results = append(results, fr)
+					}
+				}
+			}
+		}
 	}
 	for i := range ts {
 		if results[i].Err != "" {
@@ -282,7 +316,7 @@ func cmdCheck(repo, verif, prop, tier string, timeoutMs int, verbose bool) int {
 			body := fmt.Sprintf("obligation: %s\nproperty:   %s\nkind:       %s\nwhere:      %s\nclause/src: %s\nstatus:     %s (last solver: %s)\nhistory:    %s\nquery file: %s\n\nThe verifier could not discharge this obligation from the current source of /repo.\n%s\n",
 				o.Name, prop, o.Kind, o.Pos, o.Src, o.Status, o.Solver, was, fr.SMTFile, o.Model)
 			rp := replayResult{false, "no-failing-input-found: replay not attempted"}
-			if t, ok := cr.targets[fr.Fn]; ok {
+			if t, ok := cr.targets[fr.Fn]; ok && t.lm == nil {
 				rp = cr.eng.replayObligation(t, o.Name, o.Kind, verif, prop)
 			}
 			if rp.reproduced {
